@@ -434,7 +434,7 @@ mod rocks {
                                 if rr.crash.is_none() && rr.outs.last().map(|o| &o.vals) == Some(&vals) { same = true; break; }
                             }
                             if same { *dist.entry(format!("{what}_value_failures_shared_with_a_never_crashed_engine")).or_insert(0) += 1; }
-                            else { failures.push(Failure { sig: format!("C08:rocksdb:{what}:value"), desc: format!("keys {:?}: got {:?} expected {:?} (inputs {:?})", ks, vals, expv, have), case: case.render() }); }
+                            failures.push(Failure { sig: format!("C08:rocksdb:{what}:value{}", if same { "-same-as-never-crashed" } else { "" }), desc: format!("keys {:?}: got {:?} expected {:?} (inputs {:?})", ks, vals, expv, have), case: case.render() });
                         }
                     }
                 }
@@ -601,12 +601,22 @@ fn main() {
             if rb.crash.is_none() { let l = format!("shutdown {}", rb.batches_at_shutdown.get(ri).map(|n| n.to_string()).unwrap_or("?".into())); out.line("shutdown", &l); exp_lines.push(l); }
             if let Some((sig, desc)) = compare_runs(case, &ra, &rb) {
                 let cfgline = format!("cfg cap={} group={} workers={}\n", cfg.cap, cfg.group, cfg.workers);
+                // the two runs as observed are recorded with the case (`#A` without, `#B` with restarts): the walk order of a
+                // backward-edge set that was evicted and reloaded is timing dependent, so a replay need not show the same pair
+                let observed = |c: &PCase, a: &RunOut, b: &RunOut| -> String {
+                    let we = !c.program.has_unordered(); let ops = c.ops(); let mut t = String::new();
+                    for (i, o) in a.outs.iter().enumerate() { t.push_str(&format!("#A\t{}\t{}\n", ops[i].render(), render_out(o, we))); }
+                    for (i, o) in b.outs.iter().enumerate() { t.push_str(&format!("#B\t{}\t{}\n", ops[i].render(), render_out(o, we))); }
+                    t
+                };
+                let mut pushed = false;
                 if failures.iter().filter(|f| f.sig == sig).count() < 2 {
                     let small = shrink_c07(case, *cfg, &sig);
                     let (sa, sb) = (run_items(&small.without_restarts(), *cfg, &MemStore::new(cfg.group, false)), run_items(&small, *cfg, &MemStore::new(cfg.group, false)));
-                    let d = compare_runs(&small, &sa, &sb).map(|x| x.1).unwrap_or(desc);
-                    failures.push(Failure { sig, desc: d, case: cfgline + &small.render() });
-                } else { failures.push(Failure { sig, desc, case: cfgline + &text }); }
+                    if let Some((s2, d)) = compare_runs(&small, &sa, &sb) { if s2 == sig {
+                        failures.push(Failure { sig: sig.clone(), desc: d, case: cfgline.clone() + &small.render() + &observed(&small, &sa, &sb) }); pushed = true; } }
+                }
+                if !pushed { failures.push(Failure { sig, desc, case: cfgline + &text + &observed(case, &ra, &rb) }); }
             }
             // run A's own line stream is needed by the plugin for attribution: written to a side file
             exp_lines.push(String::new()); exp_lines.pop();
